@@ -5,6 +5,7 @@ package e1
 
 import (
 	"fmt"
+	"os"
 	"strings"
 
 	"pgregory.net/rapid"
@@ -44,6 +45,10 @@ type Spec struct {
 	AutoVacuum int
 	Tables     []TableSpec
 	History    []string // statements run after the initial load (may fail; SQLite decides)
+	// SchemaFormat 2 or 3: SQLite is made to write the file in that older
+	// format (it keeps the format of a file it finds), in which DESC in index
+	// definitions is ignored. 0: the current format (4).
+	SchemaFormat int `json:",omitempty"`
 }
 
 var bulkExprs = []string{
@@ -111,7 +116,8 @@ func Gen(t *rapid.T, o Opts) Spec {
 	if o.PageSizes == nil {
 		o.PageSizes = []int{512, 512, 512, 1024, 1024, 2048, 4096, 4096, 8192, 65536}
 	}
-	s := Spec{PageSize: rapid.SampledFrom(o.PageSizes).Draw(t, "ps"), AutoVacuum: rapid.SampledFrom([]int{0, 0, 0, 1, 2}).Draw(t, "av")}
+	s := Spec{PageSize: rapid.SampledFrom(o.PageSizes).Draw(t, "ps"), AutoVacuum: rapid.SampledFrom([]int{0, 0, 0, 1, 2}).Draw(t, "av"),
+		SchemaFormat: rapid.SampledFrom([]int{0, 0, 0, 0, 0, 0, 3, 2}).Draw(t, "schemaformat")}
 	used := map[string]bool{"other": true, "t2": true, "sqlite_master": true}
 	nt := rapid.IntRange(1, o.MaxTables).Draw(t, "ntables")
 	for ti := 0; ti < nt; ti++ {
@@ -271,6 +277,29 @@ func Build(r *vt.Run, t vt.TB, env *sqdb.Env, s Spec, path string) (created []bo
 		r.Harness(t, "open: %v", err)
 	}
 	pre := []oracle.Stmt{{SQL: fmt.Sprintf("PRAGMA page_size=%d", s.PageSize)}, {SQL: fmt.Sprintf("PRAGMA auto_vacuum=%d", s.AutoVacuum)}}
+	if s.SchemaFormat == 2 || s.SchemaFormat == 3 {
+		// an empty file with that schema format in its header: SQLite keeps
+		// the format for everything it creates in the file afterwards
+		if _, err := env.O.Script("e1w", append(pre, oracle.Stmt{SQL: "VACUUM"}), true); err != nil {
+			r.Harness(t, "legacy format: %v", err)
+		}
+		if err := env.O.Close("e1w"); err != nil {
+			r.Harness(t, "legacy format: close: %v", err)
+		}
+		b, err := os.ReadFile(path)
+		if err != nil || len(b) < 100 {
+			r.Harness(t, "legacy format: empty database has %d bytes: %v", len(b), err)
+		}
+		b[44], b[45], b[46], b[47] = 0, 0, 0, byte(s.SchemaFormat)
+		b[56], b[57], b[58], b[59] = 0, 0, 0, 1 // UTF-8, which SQLite sets together with the format
+		if err := os.WriteFile(path, b, 0o644); err != nil {
+			r.Harness(t, "legacy format: %v", err)
+		}
+		if err := env.O.Open("e1w", path); err != nil {
+			r.Harness(t, "legacy format: reopen: %v", err)
+		}
+		r.Count(fmt.Sprintf("schema-format=%d", s.SchemaFormat), 1)
+	}
 	res, err := env.O.Script("e1w", append(pre, stmts...), false)
 	if err != nil {
 		r.Harness(t, "script: %v", err)
